@@ -6,12 +6,14 @@
 # assembly. C20 runs `build/vcheck-purego C20purego <tier>` as a child process and compares its
 # digests (permutation outputs on the corpus, public-API hashes) with those of the default build.
 #
-# A stale helper must never be used, so it is removed first. If the purego variant does not build,
-# the pre-step fails (run.sh then reports PRE-STEP-FAILED and exits 2): the code selected by the
-# purego tag does not compile, which nothing else in the tree would notice.
+# A stale helper must never be used, so it is removed first. If the purego variant does not build although
+# the default variant does (run.sh builds that next), the code selected by the purego tag is broken, which
+# nothing else in the tree would notice: run.sh reports that as a C20 violation (the hash must not depend
+# on the purego tag; there is no hash at all). If neither variant builds it is a machinery failure (exit 3).
 rm -f build/vcheck-purego
 if ! build vcheck-purego "verif purego"; then
   echo "pre-C20: building the purego variant failed"
-  return 1
+  VARIANT_FAILED="purego variant (go build -tags 'verif purego') does not build while the default variant does"
+else
+  echo "pre-C20: built build/vcheck-purego"
 fi
-echo "pre-C20: built build/vcheck-purego"
